@@ -45,9 +45,9 @@ struct CoutCapture {
 // ================================================================================================
 // C17: shot programs
 // ================================================================================================
-enum SegKind { S_LOCAL = 0, S_LOOP, S_HELPER, S_ARRAY, S_OBJ1, S_OBJ2, S_BLOCK, S_ECHO, S_UNTRACKED, S_CYCLE_OWNER, S_COND, S_MULTI, S_COUNT };
+enum SegKind { S_LOCAL = 0, S_LOOP, S_HELPER, S_ARRAY, S_OBJ1, S_OBJ2, S_BLOCK, S_ECHO, S_UNTRACKED, S_CYCLE_OWNER, S_COND, S_MULTI, S_FACTORY, S_COUNT };
 const char* segName(int k) {
-    static const char* n[] = {"tracked_local", "tracked_in_loop", "tracked_in_helper", "tracked_array", "object_tracked_field", "object_tracked_array_field", "tracked_in_block", "echo", "untracked_qubit", "tracked_owner_held_by_garbage_cycle", "tracked_in_measurement_dependent_scope", "tracked_multi_declaration"};
+    static const char* n[] = {"tracked_local", "tracked_in_loop", "tracked_in_helper", "tracked_array", "object_tracked_field", "object_tracked_array_field", "tracked_in_block", "echo", "untracked_qubit", "tracked_owner_held_by_garbage_cycle", "tracked_in_measurement_dependent_scope", "tracked_multi_declaration", "tracked_owner_returned_by_factory"};
     return k >= 0 && k < S_COUNT ? n[k] : "?";
 }
 struct Seg {
@@ -56,6 +56,7 @@ struct Seg {
     int meas = 1;       // locals: 0 not measured, 1 measured, 2 measured then reset, 3 measured, reset, measured again ; arrays: 0 none, 1 all, 2 first element only, 3 elementwise
     int reps = 1;       // loop iterations / helper calls / object lifetimes
     bool viaDestroy = false;
+    bool echoDtor = false;  // S_CYCLE_OWNER: the owned objects echo from their destructor (order against other echoes depends on when the cycle is collected)
 };
 struct ShotPlan {
     std::vector<Seg> segs;
@@ -67,7 +68,7 @@ struct ShotPlan {
 
 Json planJson(const ShotPlan& p) {
     Json a = Json::array();
-    for (auto& s : p.segs) a.push(Json::object().set("seg", segName(s.kind)).set("kind", s.kind).set("prep", s.prep).set("meas", s.meas).set("reps", s.reps).set("destroy", s.viaDestroy));
+    for (auto& s : p.segs) a.push(Json::object().set("seg", segName(s.kind)).set("kind", s.kind).set("prep", s.prep).set("meas", s.meas).set("reps", s.reps).set("destroy", s.viaDestroy).set("echo_dtor", s.echoDtor));
     return Json::object().set("engine", "clirun").set("what", "shot_plan").set("segments", a).set("annotation_shots", p.annShots).set("flag_shots", p.cliShots).set("echo_mode", p.echoMode).set("outcome_seed", sim::hex64(p.outcomeSeed));
 }
 ShotPlan planFrom(const Json& j) {
@@ -79,6 +80,7 @@ ShotPlan planFrom(const Json& j) {
         s.meas = (int)e.at("meas").asInt();
         s.reps = (int)e.at("reps").asInt(1);
         s.viaDestroy = e.at("destroy").asBool();
+        s.echoDtor = e.has("echo_dtor") && e.at("echo_dtor").asBool();
         p.segs.push_back(s);
     }
     p.annShots = (int)j.at("annotation_shots").asInt();
@@ -100,6 +102,8 @@ std::string prepCode(int prep, const std::string& e) {
 std::string renderShot(const ShotPlan& p) {
     std::string s;
     s += "class T1 {\n    @tracked public qubit q;\n    public constructor() -> T1 = default;\n    public function ms() -> void { measure this.q; }\n}\n";
+    s += "class TE {\n    @tracked public qubit q;\n    public constructor() -> TE = default;\n    public destructor() -> void { echo(\"te released\"); }\n}\n";
+    s += "class CE {\n    public CE next;\n    public TE t;\n    public constructor() -> CE { this.next = null; this.t = new TE(); return this; }\n}\n";
     s += "class CN {\n    public CN next;\n    public T1 t;\n    public constructor() -> CN { this.next = null; this.t = new T1(); return this; }\n}\n";
     s += "class T2 {\n    @tracked public qubit[2] qs;\n    public constructor() -> T2 = default;\n    public function ms() -> void { measure this.qs; }\n}\n";
     std::string body;
@@ -154,6 +158,11 @@ std::string renderShot(const ShotPlan& p) {
                 }
                 break;
             case S_ECHO: body += "    echo(\"e" + id + "\");\n"; break;
+            case S_FACTORY:
+                // an object with a tracked field is built by a function and returned; it ends when the variable is cleared
+                s += "function mkT" + id + "() -> T1 { T1 t = new T1(); " + prepCode(g.prep, "t.q") + (g.meas >= 1 ? "t.ms(); " : "") + "return t; }\n";
+                for (int r = 0; r < g.reps; ++r) body += "    T1 f" + id + "_" + std::to_string(r) + " = mkT" + id + "(); f" + id + "_" + std::to_string(r) + " = null;\n";
+                break;
             case S_MULTI:
                 // one annotation, two declared qubits: both are tracked
                 body += "    @tracked qubit ma" + id + ", mb" + id + "; " + localBody("ma" + id) + localBody("mb" + id) + "\n";
@@ -167,7 +176,7 @@ std::string renderShot(const ShotPlan& p) {
                 // collector reclaims it (at the latest in the collection that ends the run). meas==1: the first
                 // owner's qubit is measured; viaDestroy: a collection is requested while the cycle is still
                 // reachable (after the last allocation of the helper).
-                s += "function mkc" + id + "() -> void { T1 tmp = new T1(); CN ca = new CN(); CN cb = new CN(); ca.next = cb; cb.next = ca; " + prepCode(g.prep, "ca.t.q") + (g.meas >= 1 ? "ca.t.ms(); " : "") +
+                s += "function mkc" + id + "() -> void { T1 tmp = new T1(); " + std::string(g.echoDtor ? "CE ca = new CE(); CE cb = new CE(); " : "CN ca = new CN(); CN cb = new CN(); ") + "ca.next = cb; cb.next = ca; " + prepCode(g.prep, "ca.t.q") + (g.meas >= 1 ? (g.echoDtor ? "measure ca.t.q; " : "ca.t.ms(); ") : "") +
                      (g.viaDestroy ? "destroy tmp; int zz = 1; " : "tmp = null; ") + "}\n";
                 for (int r = 0; r < g.reps; ++r) body += "    mkc" + id + "();\n";
                 break;
@@ -191,6 +200,7 @@ ShotPlan genShot(sim::Rng& g) {
         if (s.kind == S_ARRAY && g.chance(0.25)) s.meas = 4;
         if (s.kind == S_LOOP || s.kind == S_HELPER) s.reps = g.range(1, 3);
         if (s.kind == S_OBJ1 || s.kind == S_OBJ2) { s.reps = g.range(1, 3); s.viaDestroy = g.chance(0.4); if (s.meas > 2) s.meas = 1; }
+        if (s.kind == S_FACTORY) { s.reps = g.range(1, 2); if (s.meas > 1) s.meas = 1; if (s.meas == 0 && s.prep >= 2) s.prep -= 2; }
         if (s.kind == S_CYCLE_OWNER) {
             s.reps = g.range(1, 2);
             s.viaDestroy = g.chance(0.6);
@@ -198,10 +208,11 @@ ShotPlan genShot(sim::Rng& g) {
             // an unmeasured superposed qubit would make the owner's death draw a reset branch at collection
             // time, i.e. at a schedule-dependent point between scripted measure statements
             if (s.meas == 0 && s.prep >= 2) s.prep = s.prep - 2;
+            s.echoDtor = g.chance(0.4);
         }
         if (s.kind == S_ARRAY || s.kind == S_OBJ2) { if (g.chance(0.3)) s.prep = 4; }
         if (s.kind == S_OBJ2 && s.meas == 3) s.meas = 1;
-        int need = (s.kind == S_ARRAY || s.kind == S_MULTI ? 2 : (s.kind == S_OBJ1 || s.kind == S_OBJ2) ? 2 : s.kind == S_CYCLE_OWNER ? 3 : s.kind == S_ECHO ? 0 : 1) * ((s.kind == S_LOOP || s.kind == S_HELPER) ? s.reps : 1);
+        int need = (s.kind == S_ARRAY || s.kind == S_MULTI || s.kind == S_FACTORY ? 2 : (s.kind == S_OBJ1 || s.kind == S_OBJ2) ? 2 : s.kind == S_CYCLE_OWNER ? 3 : s.kind == S_ECHO ? 0 : 1) * ((s.kind == S_LOOP || s.kind == S_HELPER) ? s.reps : 1);
         if (qubits + need > 9) continue;
         qubits += need;
         p.segs.push_back(s);
@@ -299,6 +310,13 @@ void modelShot(const ShotPlan& p, int shot, Table& tab, std::vector<std::string>
                 }
                 break;
             case S_ECHO: echoes.push_back("e" + id); break;
+            case S_FACTORY:
+                for (int r = 0; r < g.reps; ++r) {
+                    std::string out = "?";
+                    if (g.meas >= 1) out = std::to_string(measureOne(g.prep, -1));
+                    tab["T1.q"][out]++;
+                }
+                break;
             case S_MULTI: {
                 std::string a = local(g), b = local(g);
                 tab["qubit ma" + id][a]++;
@@ -315,8 +333,9 @@ void modelShot(const ShotPlan& p, int shot, Table& tab, std::vector<std::string>
                     std::string out = "?";
                     if (g.meas >= 1) out = std::to_string(measureOne(g.prep, -1));
                     tab["T1.q"]["?"]++;   // tmp: never measured
-                    tab["T1.q"][out]++;   // ca.t
-                    tab["T1.q"]["?"]++;   // cb.t: never measured
+                    tab[g.echoDtor ? "TE.q" : "T1.q"][out]++;   // ca.t
+                    tab[g.echoDtor ? "TE.q" : "T1.q"]["?"]++;   // cb.t: never measured
+                    if (g.echoDtor) { echoes.push_back("te released"); echoes.push_back("te released"); }
                 }
                 break;
         }
@@ -336,8 +355,10 @@ struct CliScript {
 CliScript g_cs;
 
 void cliObserver(runtime::RuntimeEvaluator* ev, void* stmt, uint64_t, bool) {
-    (void)ev;
     if (!g_cs.active) return;
+    // a destructor run by the collector executes its statements between this hook's call for the interrupted
+    // statement and that statement's own draws: words staged for it must survive (shot programs never measure in destructors)
+    if (ev && ev->m_inDestructor) return;
     auto* st = static_cast<compiler::Statement*>(stmt);
     if (!g_cs.mainFirst) g_cs.mainFirst = stmt;
     if (stmt == g_cs.mainFirst) {
@@ -528,6 +549,9 @@ Verdict libraryCheck(const ShotPlan& p, const std::string& src, uint64_t run, ui
     std::vector<std::string> wantEcho;
     modelShot(p, 0, want, wantEcho);
     if (got != want) return {"per_shot_tracked_table_differs", "evaluator recorded " + tableStr(got) + " but the program's scope exits and owner deaths give " + tableStr(want)};
+    bool unorderedEcho = false;
+    for (auto& sg : p.segs) unorderedEcho |= sg.echoDtor;
+    if (unorderedEcho) { std::sort(echoes.begin(), echoes.end()); std::sort(wantEcho.begin(), wantEcho.end()); }
     if (echoes != wantEcho) return {"single_run_echo_differs", std::to_string(echoes.size()) + " echo lines printed, " + std::to_string(wantEcho.size()) + " expected"};
     return {};
 }
@@ -578,6 +602,9 @@ Verdict cliCheck(const ShotPlan& p, const std::string& src, uint64_t run, CliRes
     if (expectCopies >= 0) {
         std::vector<std::string> want2;
         for (int c = 0; c < expectCopies; ++c) want2.insert(want2.end(), echoPerShot.begin(), echoPerShot.end());
+        bool unorderedEcho = false;
+        for (auto& sg : p.segs) unorderedEcho |= sg.echoDtor;
+        if (unorderedEcho) { std::sort(P.echoLines.begin(), P.echoLines.end()); std::sort(want2.begin(), want2.end()); }
         if (P.echoLines != want2) return {"echo_policy_violated", "echo mode " + std::to_string(p.echoMode) + ", " + std::to_string(S) + " shot(s): " + std::to_string(P.echoLines.size()) + " echo lines printed, expected " + std::to_string(want2.size())};
     }
     return {};
@@ -629,7 +656,7 @@ std::unique_ptr<compiler::Program> parseOnly(const std::string& src, std::string
     }
 }
 
-ExecResult execOn(compiler::Program& prog, uint64_t wordSeed, uint64_t schedSeed, bool collectLog) {
+ExecResult execOn(compiler::Program& prog, uint64_t wordSeed, uint64_t schedSeed, bool collectLog, bool quiet = false) {
     ExecResult R;
     g_rng.reset(wordSeed, 0);
     g_rng.install();
@@ -645,6 +672,7 @@ ExecResult execOn(compiler::Program& prog, uint64_t wordSeed, uint64_t schedSeed
     gcs::beginRun(s);
     {
         runtime::RuntimeEvaluator ev(collectLog);
+        if (quiet) { ev.setEcho(false); ev.setWarnOnExit(false); }
         try {
             ev.execute(prog);
         } catch (const support::BlochError& e) {
@@ -680,6 +708,8 @@ struct IsoPlan {
     int K = 2;
     bool reanalyse = false;
     bool collectLogLastOnly = false;
+    bool asMultiShot = false;   // side A configured like the CLI's shot loop (echo off, no warnings, log only on the last execution);
+                                // side B a default fresh run; only configuration-independent observables are compared
     uint64_t wordSeed = 0, schedSeed = 0;
 };
 
@@ -688,8 +718,8 @@ struct IsoPlan {
 // cycles, tracked variables, measured-then-reset qubits.
 std::string isoProgram(int mask) {
     std::string s;
-    s += "class Stats { public static int runs = 0; public static int released = 0; public static float acc = 0.5f; public constructor() -> Stats = default; }\n";
-    s += "class Probe { public qubit q; public constructor() -> Probe = default; public destructor() -> void { Stats.released = Stats.released + 1; } }\n";
+    s += "class Stats { public static int runs = 0; public static int released = 0; public static int probes = 0; public static float acc = 0.5f; public constructor() -> Stats = default; }\n";
+    s += "class Probe { public qubit q; public int id; public constructor() -> Probe { Stats.probes = Stats.probes + 1; this.id = Stats.probes; return this; } public destructor() -> void { Stats.released = Stats.released + 1; echo(\"probe \" + this.id); } }\n";
     s += "class Link { public Link next; public Probe p; public constructor() -> Link { this.next = null; this.p = new Probe(); return this; } }\n";
     s += "class Box<T> { public T v; public constructor(T v) -> Box<T> { this.v = v; return this; } public function get() -> T { return this.v; } }\n";
     s += "class Cnt { public static int made = 0; public int id; public constructor() -> Cnt { Cnt.made = Cnt.made + 1; this.id = Cnt.made; return this; } }\n";
@@ -736,7 +766,7 @@ std::string isoSource(const IsoPlan& p) {
 
 Json isoJson(const IsoPlan& p) {
     Json j = Json::object();
-    j.set("engine", "clirun").set("what", "isolation_plan").set("family", p.family).set("K", p.K).set("reanalyse", p.reanalyse).set("log_last_only", p.collectLogLastOnly).set("word_seed", sim::hex64(p.wordSeed)).set("sched_seed", sim::hex64(p.schedSeed)).set("variant_mask", p.variantMask);
+    j.set("engine", "clirun").set("what", "isolation_plan").set("family", p.family).set("K", p.K).set("reanalyse", p.reanalyse).set("log_last_only", p.collectLogLastOnly).set("word_seed", sim::hex64(p.wordSeed)).set("sched_seed", sim::hex64(p.schedSeed)).set("variant_mask", p.variantMask).set("as_multishot", p.asMultiShot);
     if (p.family == 0) j.set("program", classprog::toJson(p.cp));
     if (p.family == 1) j.set("history", qh::toJson(p.qp));
     j.set("source_text", isoSource(p));
@@ -751,6 +781,7 @@ IsoPlan isoFrom(const Json& j) {
     p.wordSeed = strtoull(j.at("word_seed").asStr().c_str(), nullptr, 16);
     p.schedSeed = strtoull(j.at("sched_seed").asStr().c_str(), nullptr, 16);
     p.variantMask = (int)j.at("variant_mask").asInt();
+    p.asMultiShot = j.has("as_multishot") && j.at("as_multishot").asBool();
     if (p.family == 0) p.cp = classprog::fromJson(j.at("program"));
     if (p.family == 1) p.qp = qh::fromJson(j.at("history"));
     return p;
@@ -830,7 +861,7 @@ Verdict isoCheck(const IsoPlan& p, IsoStats& st) {
                     return arr.dump();
                 }
             }
-            ExecResult a = execOn(*shared, ws, ss, log);
+            ExecResult a = execOn(*shared, ws, ss, p.asMultiShot ? (k == p.K - 1) : log, p.asMultiShot);
             arr.push(execJson(a, g_rng.wordsDrawn));
         }
         return arr.dump();
@@ -855,7 +886,7 @@ Verdict isoCheck(const IsoPlan& p, IsoStats& st) {
             } catch (const std::exception& e) {
                 return Json::object().set("reject", std::string(e.what())).dump();
             }
-            ExecResult b = execOn(*fresh, ws, ss, log);
+            ExecResult b = execOn(*fresh, ws, ss, p.asMultiShot ? true : log);
             return execJson(b, g_rng.wordsDrawn).dump();
         });
         Json jb;
@@ -867,6 +898,13 @@ Verdict isoCheck(const IsoPlan& p, IsoStats& st) {
         if (a.r.status != 0) ++st.errors;
         a.r.state.clear();
         b.r.state.clear();
+        if (p.asMultiShot) {
+            // echo buffer, warnings and the QASM log legitimately depend on the configuration
+            a.r.echoes.clear(); b.r.echoes.clear();
+            a.r.out.clear(); b.r.out.clear();
+            a.r.err.clear(); b.r.err.clear();
+            a.r.qasm.clear(); b.r.qasm.clear();
+        }
         if (!(a.r == b.r) || a.stateHash != b.stateHash) {
             std::string d = a.r.diff(b.r);
             if (d.empty()) d = "final simulator state differs";
@@ -885,6 +923,7 @@ IsoPlan genIso(uint64_t seed, uint64_t run) {
     p.K = ks[knob.below(3)];
     p.reanalyse = knob.chance(0.3);
     p.collectLogLastOnly = knob.chance(0.4);
+    p.asMultiShot = knob.chance(0.25);
     p.wordSeed = g.next();
     p.schedSeed = g.next();
     if (p.family == 0) p.cp = classprog::generate(g, knob.chance(0.3), false);
@@ -927,6 +966,8 @@ void runOne(const sim::Options& opt, uint64_t run, sim::RunReport& rep) {
             if ((s.kind == S_LOOP || s.kind == S_HELPER) && s.reps > 1) rep.count("c17.multi_exit_scopes");
             if (s.kind == S_OBJ1 || s.kind == S_OBJ2 || s.kind == S_CYCLE_OWNER) rep.count("c17.object_owned_tracked_fields");
             if (s.kind == S_CYCLE_OWNER) rep.count("c17.owners_held_by_garbage_cycle");
+            if (s.kind == S_CYCLE_OWNER && s.echoDtor) rep.count("c17.echo_from_destructor_run_by_collector");
+            if (s.kind == S_FACTORY) rep.count("c17.tracked_owner_returned_by_function");
         }
         static const char* em[] = {"echo.absent", "echo.auto", "echo.all", "echo.none"};
         rep.count(em[p.echoMode]);
@@ -992,6 +1033,7 @@ void runOne(const sim::Options& opt, uint64_t run, sim::RunReport& rep) {
     rep.count(p.family == 0 ? "c18.family_class_program" : p.family == 1 ? "c18.family_quantum_history" : p.family == 2 ? "c18.family_isolation_program" : "c18.family_speculative_accepted");
     if (p.reanalyse) rep.count("c18.reanalysed_between_executions");
     if (p.collectLogLastOnly) rep.count("c18.qasm_log_only_on_last_execution");
+    if (p.asMultiShot) rep.count("c18.configured_like_the_cli_shot_loop");
     sim::Hash h;
     h.add(sim::fnv1a(isoSource(p)));
     h.add((uint64_t)p.K * 4 + (p.reanalyse ? 2 : 0) + (p.collectLogLastOnly ? 1 : 0));
